@@ -494,6 +494,8 @@ def apply_contract(ip, st, c, args, kws):
     # exceptional outcomes
     normal_conds = []
     for exc, cond in case.raises.items():
+        if case.generator:
+            break       # calling a generator function runs nothing: its exceptions belong to the iteration
         if cond == "?":
             ct = ip.reg.new("raises_%s" % exc, "Bool")
         else:
@@ -537,6 +539,10 @@ def apply_contract(ip, st, c, args, kws):
 
 def do_havoc(ip, st, case, env):
     for m in case.modifies:
+        if m == "fs":
+            from .lib import fs_init
+            fs_init(ip, st)
+            continue
         kind, base, field = places_of(ip, st, env, m)
         if kind == "field":
             if not (isinstance(base, Ref) and isinstance(st.heap[base.cid], ObjCell)):
@@ -741,7 +747,7 @@ def _sf_old(ip, e, st):
     env = dict(st.env)
     env.update(o.env)
     s = State.__new__(State)
-    s.env, s.heap, s.pc, s.trace, s.catching, s.depth, s.notes = env, o.heap, st.pc, st.trace, st.catching, st.depth, st.notes
+    s.env, s.heap, s.pc, s.trace, s.catching, s.depth, s.notes = env, o.heap, st.pc, st.trace, st.catching, st.depth, o.notes
     v = ip.ev1(e.args[0], s)
     # a reference to a mutable value is snapshotted: old(d) is the VALUE d had, whatever happens to the object later
     if isinstance(v, Ref) and isinstance(o.heap.get(v.cid), ValCell):
@@ -823,3 +829,5 @@ def _sf_is_fresh(ip, e, st):
 SPEC_FORMS = {"is_fresh": _sf_is_fresh, "arith_next": _sf_arith_next, "old": _sf_old, "implies": _sf_implies, "iff": _sf_iff, "pulled": _sf_pulled, "content": _sf_content,
               "rest": _sf_rest}
 SPEC_FORMS.update(_dict_forms())
+from .lib import FS_FORMS as _FS_FORMS
+SPEC_FORMS.update(_FS_FORMS)
